@@ -24,7 +24,7 @@ typedef long double L;
 
 static std::vector<std::string> g_log;        // one record per integrand call
 static std::vector<sz> g_bounds;              // log size at every callback invocation
-static int g_fn = 0;                          // 0 dyadic (exact sums), 1 smooth, 2 smooth with non-finite values in some cells
+static int g_fn = 0;                          // 0 dyadic (exact sums), 1 smooth with a cut, 2 the same with non-finite values in some cells
 
 template <typename T>
 static std::string rec(std::vector<T> const& p, T w, std::vector<sz> const* bin, sz channel)
@@ -42,6 +42,7 @@ static T fval(std::vector<T> const& y)
 {
     if (g_fn == 0) { T v = T(0.25); for (T x : y) v += T(static_cast<sz>(x * T(8))) / T(8); return v; }
     if (g_fn == 2 && static_cast<sz>(y[0] * T(16)) % 4 == 1) return std::numeric_limits<T>::quiet_NaN();
+    if (g_fn >= 1 && static_cast<sz>(y[0] * T(16)) % 4 == 3) return T();     // a cut: exactly zero on a quarter of the domain
     T v = T(1); for (T x : y) v *= T(1) / (T(0.1L) + x); return v;
 }
 
@@ -117,7 +118,7 @@ template <typename T, typename E> struct kit<T, E, 1>
 {
     using C = hep::vegas_chkpt_with_rng<E, T>;
     using R = hep::vegas_result<T>;
-    static C fresh() { E g; g.seed(5); return hep::make_vegas_chkpt<T, E>(4, T(1.5), g); }
+    static C fresh() { E g; g.seed(5); return hep::make_vegas_chkpt<T, E>(4, T(0.875), g); }
     static sz numbers() { return 2; }
     template <typename CB> static C mpi(std::vector<sz> const& calls, bool dist, CB cb)
     {
